@@ -55,7 +55,7 @@ peg::parser! {
             ['\\'] [c] { c.to_string() }
 
         rule bracket_expression() -> String =
-            "[" invert:(invert_char()?) members:bracket_member()+ "]" {
+            "[" invert:(invert_char()?) members:bracket_members() "]" {
                 let mut members = members.into_iter().flatten().collect::<Vec<_>>();
 
                 // If we completed the parse but ended up with no valid members
@@ -78,6 +78,30 @@ peg::parser! {
 
         rule invert_char() -> bool =
             ['!' | '^'] { true }
+
+        // A `]` that comes first in a bracket expression (after the optional `!`/`^`) is an
+        // ordinary member, not the closing bracket: `[]a]` matches `]` or `a`. It may also
+        // start a range (`[]-a]`); as for any other range, an inverted one contributes nothing.
+        rule bracket_members() -> Vec<Option<String>> =
+            "]-" to:single_char_bracket_member() rest:bracket_member()* {
+                let (to_str, to_c) = to;
+                let mut members = vec![(']' <= to_c).then(|| std::format!(r"\]-{to_str}"))];
+                members.extend(rest);
+                members
+            } /
+            "]" rest:bracket_member()* {
+                let mut members = vec![Some(String::from(r"\]"))];
+                // Keep a dash that directly follows from fusing with the `]` into a range.
+                let mut rest = rest;
+                if let Some(first) = rest.iter_mut().flatten().next() {
+                    if first == "-" {
+                        *first = String::from(r"\-");
+                    }
+                }
+                members.extend(rest);
+                members
+            } /
+            bracket_member()+
 
         rule bracket_member() -> Option<String> =
             e:char_class_expression() { Some(e) } /
